@@ -18,10 +18,39 @@ from .codec import _ZONES, _has_timestamp, _my_classes
 IMMUTABLE_LEAVES = (int, float, str, bytes, type(None), datetime.datetime, datetime.timedelta, uuid.UUID, enum.Enum)
 
 
+_EXACT_LEAVES = (int, float, str, bytes, bool, type(None), datetime.datetime, datetime.timedelta, datetime.timezone, uuid.UUID)
+
+
+def _stateful_leaf(v: object, path: str) -> str | None:
+    """A leaf of a subclass of an immutable builtin (kio's own value types are such) is still a value only if looking at it does not change
+    it: no attribute that stores what it computed in the instance (functools.cached_property and the like)."""
+    import functools
+
+    t = type(v)
+    if t in _EXACT_LEAVES or isinstance(v, enum.Enum):
+        return None
+    before = dict(getattr(v, "__dict__", None) or {})
+    for klass in t.__mro__:
+        if klass.__module__ in ("builtins", "datetime", "uuid", "enum"):
+            continue
+        for name, attr in vars(klass).items():
+            if isinstance(attr, functools.cached_property):
+                return f"{path} ({t.__name__} keeps per-instance state: cached_property {name!r})"
+            if isinstance(attr, property) or (hasattr(attr, "__get__") and hasattr(attr, "__set_name__") and not callable(attr)):
+                try:
+                    getattr(v, name)
+                except Exception:  # noqa: BLE001
+                    pass
+    after = dict(getattr(v, "__dict__", None) or {})
+    if after != before:
+        return f"{path} ({t.__name__} changed its own state when its attributes were read: {sorted(set(after) - set(before))})"
+    return None
+
+
 def mutable_path(v: object, path: str = "") -> str | None:
     """Path to the first mutable value inside an entity, or None."""
     if isinstance(v, IMMUTABLE_LEAVES):
-        return None
+        return _stateful_leaf(v, path)
     if isinstance(v, tuple):
         for k, x in enumerate(v):
             p = mutable_path(x, f"{path}[{k}]")
